@@ -617,6 +617,8 @@ func c16GenDump(r *common.Rand) (int, []common.JEvent, []c16Q) {
 
 type c16In struct {
 	T    string          `json:"t"`
+	N    int             `json:"n"`
+	Tie  int             `json:"tie"`
 	Cap  int             `json:"cap"`
 	ML   uint64          `json:"ml"`
 	Msgs []c16Msg        `json:"msgs"`
@@ -639,6 +641,8 @@ func init() {
 					out.Emit(c16RunDump(in.Cap, in.Hist, in.Qs))
 				case "sqlite":
 					out.Emit(c16RunSqlite(in.ML, in.Msgs))
+				case "bigdump":
+					out.Emit(c16RunBigDump(in.Cap, in.N, in.Tie))
 				default:
 					common.Fatalf("bad replay case: unknown t %q", in.T)
 				}
@@ -648,6 +652,11 @@ func init() {
 		root := common.NewRand(seed)
 		for i := 0; i < n; i++ {
 			r := root.Fork(uint64(i))
+			if i%400 == 7 { // a few large stores per run
+				capacity, nn, tie := c16GenBigDump(r)
+				out.Emit(c16RunBigDump(capacity, nn, tie))
+				continue
+			}
 			switch i % 5 {
 			case 0, 1:
 				capacity, msgs := c16GenCacheSession(r)
